@@ -509,6 +509,18 @@ impl WsConn {
         Self::connect_from(None, addr)
     }
 
+    /// Up to six attempts over ~30 s: on a loaded machine a socket worker that is still joining its channel meshes lets
+    /// the handshake wait, and being unable to connect is never a verdict by itself
+    pub fn connect_patiently(addr: SocketAddr) -> Option<WsConn> {
+        for attempt in 0..6 {
+            if let Some(c) = Self::connect_from(None, addr) {
+                return Some(c);
+            }
+            std::thread::sleep(Duration::from_millis(200 * (attempt + 1)));
+        }
+        None
+    }
+
     pub fn connect_from(local_ip: Option<IpAddr>, addr: SocketAddr) -> Option<WsConn> {
         let s: TcpStream = match local_ip {
             None => {
